@@ -546,6 +546,14 @@ def check_large(rep):
         ('equal-big-items-x3', 'ber', None, big(b'r', 9000) * 3 + b'\x02\x01\x07', 4),
         ('sizes-adding-up', 'ber', '(str 4)', big(b's', 4996) * 2 + big(b't', 9996) + b'\x04\x01u', 4),
         ('sizes-adding-up-2', 'ber', '(str 4)', big(b's', 8996) + big(b't', 8996) + big(b'w', 18000 - 8) + b'\x04\x01u', 4),
+        # an indefinite-length value that does NOT come first, with a child starting beyond the cache window and little after it
+        # (positions held across the children of an indefinite-length value are not comparable behind the wrapper)
+        ('def-then-segmented', 'ber', '(str 4)', big(b'a', 6000) + b'\x24\x80' + b''.join(big(bytes([98 + j]), 1000) for j in range(4)) + b'\x00\x00'
+         + b'\x04\x01u', 3),
+        ('ints-then-indef-seqof', 'ber', None, b'\x02\x01\x05' * 40 + b'\x30\x80' + b''.join(big(bytes([65 + j % 20]), 400) for j in range(40))
+         + b'\x00\x00' + b'\x01\x01\xff', 42),
+        ('def-then-indef-then-more', 'ber', None, big(b'a', 3000) + b'\x30\x80' + b''.join(big(bytes([70 + j]), 2000) for j in range(5)) + b'\x00\x00'
+         + b'\x05\x00', 3),
     ]
     for name, cdc, ts, data, n_items in streams_:
         t = ty_of(ts)
